@@ -37,9 +37,11 @@ def _vecvar(g, draw):
     return g.pick(src)
 
 
-def _wrap(draw, r, g):
+def _wrap(draw, r, g, _depth=0):
     """f±c, c*f, f*c, -f, f/c : the BinaryOp.jacobian_row propagation cases"""
-    k = draw(st.integers(0, 7))
+    k = draw(st.integers(0, 10))
+    if k >= 9 and _depth < 2:
+        return _wrap(draw, _wrap(draw, r, g, _depth + 1), g, _depth + 1)   # e.g. (c * f + k) / d, k - c * f
     c = ["const", draw(st.sampled_from(["pyint", "pyfloat", "Constant", "npfloat64"])), draw(st.sampled_from([2, 3, -1, -2, 4]))]
     if c[1] != "pyint" and draw(st.booleans()):
         c[2] = draw(st.sampled_from([0.5, 2.5, -1.5]))
@@ -57,6 +59,8 @@ def _wrap(draw, r, g):
         return ["bin", "-", c, r]
     if k == 6:
         return ["un", "neg", r]
+    if k == 7:
+        return ["bin", "/", r, c]
     return r
 
 
